@@ -138,7 +138,9 @@ class FPAdder_SP(Logic):
         # it is enough with 5 bits for ediff
         # Also we know ediff will be always positive
 
-        ediff = self.wire('ediff', 5)
+        # (5 bits are not enough: a difference of 32 or more would wrap around
+        #  and shift by the wrong amount; with 8 bits big differences shift mb out)
+        ediff = self.wire('ediff', 8)
         Sub(self, 'ediff', ea, eb, ediff)
         
         mb3 = self.wire('mb3', mb.getWidth())
